@@ -148,7 +148,10 @@ def cli(argv=sys.argv, mode='output'):
         with msg_prefix('GRAPH INPUT: '):
             interactive_msg(ask_kthlist_graph)
 
-        G = readGraph(sys.stdin, "dag", file_format="kthlist")
+        try:
+            G = readGraph(sys.stdin, "dag", file_format="kthlist")
+        except OSError as e:
+            raise CLIError("ERROR: cannot read the input: {}".format(e))
 
     F = PebblingFormula(G)
 
